@@ -81,3 +81,47 @@ def add_viol(lst, item):
         if _json.dumps(sig, sort_keys=True, default=repr) == key:
             return
     lst.append(item)
+
+
+_KNOWN_CACHE = {}
+
+
+def enough(lst, pid, cap=60):
+    """True when `lst` holds at least `cap` distinct violation signatures that no open known finding of property `pid`
+    absorbs: a job may then stop early (the check fails anyway; going on only costs time - a change that makes every
+    case fail can also make every case slow)."""
+    import common
+    if pid not in _KNOWN_CACHE:
+        _KNOWN_CACHE[pid] = [f.get("match", {}) for f in common.load_known().get("findings", []) if f.get("property") == pid and f.get("status") == "open"]
+    known = _KNOWN_CACHE[pid]
+    n = 0
+    for sig, _d in lst:
+        if not any(all(sig.get(a) == b for a, b in m.items()) for m in known):
+            n += 1
+            if n >= cap:
+                return True
+    return False
+
+
+class Budget:
+    """Early stop for jobs whose every case fails: counts ALL violations no open known finding absorbs (not only distinct
+    signatures) and the wall-clock time spent since the first of them."""
+
+    def __init__(self, pid, cap=300, seconds=120):
+        import time
+        self.pid, self.cap, self.seconds = pid, cap, seconds
+        self.n = 0
+        self.t0 = None
+        self._time = time.time
+
+    def note(self, sig):
+        """record one violation; True = stop now"""
+        import common
+        if self.pid not in _KNOWN_CACHE:
+            _KNOWN_CACHE[self.pid] = [f.get("match", {}) for f in common.load_known().get("findings", []) if f.get("property") == self.pid and f.get("status") == "open"]
+        if any(all(sig.get(a) == b for a, b in m.items()) for m in _KNOWN_CACHE[self.pid]):
+            return False
+        self.n += 1
+        if self.t0 is None:
+            self.t0 = self._time()
+        return self.n >= self.cap or (self._time() - self.t0) > self.seconds
